@@ -48,7 +48,7 @@ def _run_twice(case):
                 spike_clusters=[int(x) for x in m.spike_clusters], spike_templates=[int(x) for x in m.spike_templates],
                 channel_mapping=[int(x) for x in m.channel_mapping], channel_positions=np.asarray(m.channel_positions).tolist(),
                 channel_probes=[int(x) for x in m.channel_probes], n_templates=int(m.n_templates), n_clusters=int(m.n_clusters),
-                n_channels=int(m.n_channels), nan_idx=[int(x) for x in np.asarray(m.nan_idx).ravel()],
+                n_channels=int(m.n_channels),
                 clusters_channels=[int(x) for x in m.clusters_channels], templates_channels=[int(x) for x in m.templates_channels],
                 wmi=np.asarray(m.wmi, dtype=np.float64).tolist(),
                 templates=np.asarray(m.sparse_templates.data, dtype=np.float64).tolist(),
@@ -108,25 +108,32 @@ def model_query(case, impl_res):
                    wmi=wmi, amplitudes=amps, spike_templates=sm['spike_templates'], spike_clusters=sm['spike_clusters'],
                    factor=DC.frac(case.get('factor', 1)),
                    impl_inds_t=rows_t['vals'] if rows_t else [], impl_inds_c=rows_c['vals'] if rows_c else []))
-    # clusters.channels / clusters.peakToTrough (ms, NaN for ids without spikes); the sampling rate is the STORED one
+    # clusters.channels / clusters.peakToTrough (ms; NaN for the ids without spikes of a CURATED dataset, i.e. model.nan_idx,
+    # which the Lean side COMPUTES with the C08 model from the stored assignments); the sampling rate is the STORED one.
+    # clusters.depths: NaN for every id without spikes, curated or not (Lean `spikelessIds` on the stored assignment)
     rate = (case.get('spec') or {}).get('sample_rate', sm['sample_rate'])
-    qs.append(dict(p=PID, op='ptt', wfs=DC.fracs(sm['clusters_wfs']), rate=DC.frac(rate), nan_idx=sm['nan_idx']))
-    qs.append(dict(p=PID, op='depths', ys=DC.fracs([p[1] for p in sm['channel_positions']]), peaks=sm['clusters_channels'],
-                   nan_idx=sm['nan_idx'], spike_clusters=sm['spike_clusters']))
+    spec = case.get('spec')
+    st_ = list(spec['spike_templates']) if spec is not None else sm['spike_templates']
+    sc_ = list(spec.get('spike_clusters') or spec['spike_templates']) if spec is not None else sm['spike_clusters']
+    qs.append(dict(p=PID, op='ptt', wfs=DC.fracs(sm['clusters_wfs']), rate=DC.frac(rate), spike_clusters=sc_, spike_templates=st_))
+    # make_depths: the peak-channel table is the EXPORTED clusters.channels (the code reads it back from the output
+    # directory; judged in step 4); the features, when the dataset stores any, are the stored arrays - a table with
+    # fewer rows than spikes (pc_feature_spike_ids layout) makes get_depths() None -> cluster depths
+    cc_ = _find(ok, 'clusters.channels', label)
+    dq = dict(p=PID, op='depths', ys=DC.fracs([p[1] for p in sm['channel_positions']]),
+              peaks=[int(x) for x in cc_['vals']] if cc_ and all(isinstance(x, int) and x >= 0 for x in cc_['vals']) else [],
+              spike_clusters=sc_, spike_templates=st_)
+    if spec is not None and spec.get('pc_features') is not None:
+        dq.update(feat0=DC.fracs([[row for row in f[0]] for f in spec['pc_features']]), cols=spec['pc_feature_ind'])
+    qs.append(dq)
     # peak channels of the TEMPLATES (they select the rows of templates.waveformsChannels and are not exported
     # themselves): recomputed by the C09 model from the stored template waveforms
     qs.append(dict(p='C09', op='channels', wfs=DC.fracs(sm['templates']), rate=DC.frac(rate)))
-    spec = case.get('spec')
     if spec is not None:
         # cluster waveforms of the source model against the C08 model (curated datasets)
         st8 = spec['spike_templates']
         qs.append(dict(p='C08', op='clusters', W=DC.fracs(spec['templates']), chans=sm['chans_w'], st=st8,
                        sc=spec.get('spike_clusters') or st8, ns=len(spec['templates'][0]), nc=spec['n_channels']))
-    if spec is not None and spec.get('pc_features') is not None and sm.get('has_features'):
-        # feature-weighted spike depths from the C09 model, on the stored feature arrays
-        qs.append(dict(p='C09', op='depths', feat0=DC.fracs([[row for row in f[0]] for f in spec['pc_features']]),
-                       cols=spec['pc_feature_ind'], ys=DC.fracs([p[1] for p in spec['channel_positions']]),
-                       spike_templates=spec['spike_templates']))
     if case.get('twice'):
         r1t = _find(ok, 'templates.waveformsChannels', label, 'arrays_first')
         r1c = _find(ok, 'clusters.waveformsChannels', label, 'arrays_first')
@@ -205,6 +212,15 @@ def judge(case, impl_res, ans):
             return 'SPEC: channels.rawInd %s does not give back each probe\'s original channel map %s' % (raw['vals'], res[0]['spec'])
     elif raw['vals'] != res[0]['model']:
         return 'CORR: channels.rawInd differs from the model'
+    elif res[0]['ordered'] != res[0]['nonneg']:
+        return 'MACHINERY: probe table in channel-map order <-> no negative raw index does not hold on the model'
+    raw_finding = None
+    if not case.get('probes') and not res[0]['ordered']:
+        # a SINGLE dataset whose probe labels are not non-decreasing along the channel map (never the output of a merge):
+        # the exported per-probe indices are negative. Not accepted: reported (after every other clause was judged) under
+        # a narrow class, recorded as an open finding - the statement defines no per-probe index for such a table
+        raw_finding = ('SPEC: channels.rawInd %s holds negative raw indices: probe labels %s are not in channel-map order %s '
+                       '(single dataset)' % (raw['vals'], sm['channel_probes'], sm['channel_mapping']))
     # 2. listed channels
     for i, fam in ((1, 'templates'), (2, 'clusters')):
         if res[i]['model_spec'] is not True:
@@ -229,6 +245,10 @@ def judge(case, impl_res, ans):
     # 2a. the source arrays are the stored ones (templates, amplitudes, assignments as written to disk)
     spec_ = case.get('spec')
     if spec_ is not None:
+        # the inverse whitening matrix the export unwhitens with is the stored inverse / an inverse of the stored matrix
+        bad = DC.check_wmi(spec_, sm['wmi'])
+        if bad:
+            return 'SPEC: ' + bad
         if sm['templates'] != np.asarray(spec_['templates'], dtype=np.float32).astype(np.float64).tolist():
             return 'SPEC: the template waveforms of the source model differ from the stored templates.npy'
         if sm['amplitudes'] != [float(x) for x in spec_['amplitudes']] or sm['spike_templates'] != list(spec_['spike_templates']) or \
@@ -236,12 +256,14 @@ def judge(case, impl_res, ans):
             return 'SPEC: amplitudes / assignments of the source model differ from the stored arrays'
     # 2b. the cluster waveforms everything below is derived from (C08): count-weighted means of the
     # templates on the dominant template's channels when the dataset is curated
-    I_AMP, I_PTT, I_DEP, I_TPK, I_C08, I_FD = 3, 4, 5, 6, 7, 8
+    I_AMP, I_PTT, I_DEP, I_TPK, I_C08 = 3, 4, 5, 6, 7
     curated = sm['spike_clusters'] != sm['spike_templates']
     if len(res) > I_C08 and 'data' in res[I_C08] and curated:
         exp_cw = [[[DC.to_float(x) for x in row] for row in M] for M in res[I_C08]['data']]
         if sm['clusters_wfs'] != exp_cw:
             return 'SPEC: cluster waveforms of the source are not the count-weighted template means on the dominant template\'s channels'
+    if not curated and (sm['clusters_wfs'] != sm['templates'] or sm['n_clusters'] != sm['n_templates']):
+        return 'SPEC: nothing was curated but the cluster waveforms of the source are not the template waveforms (one cluster per template)'
     if sm['templates_channels'] != res[I_TPK]['peak']:
         return 'SPEC: the peak channels %s that select the listed channels of the templates are not the peak channels of the stored templates %s' % (
             sm['templates_channels'], res[I_TPK]['peak'])
@@ -281,24 +303,20 @@ def judge(case, impl_res, ans):
             if not _close([ptt['vals'][c]], [DC.to_float(pm['ptt_table'][c][cc['vals'][c]])], 1e-9):
                 return 'SPEC: clusters.peakToTrough[%d] = %s is not the peak-to-trough duration in ms on the peak channel %s' % (
                     c, ptt['vals'][c], DC.to_float(pm['ptt_table'][c][cc['vals'][c]]))
+    # depths: both tables come from the Lean export model (`exportClusterDepths` / `exportSpikeDepths`): NaN exactly for
+    # the ids without spikes; per spike the feature-weighted depth when there is a feature row for EVERY spike, the
+    # depth of its cluster otherwise
     cd = _find(ok, 'clusters.depths', label)
     exp_cd = [DC.to_float(x) for x in res[I_DEP]['cluster_depths']]
     if cd is None or not _close(cd['vals'], exp_cd, 1e-12):
-        return 'SPEC: clusters.depths %s are not the depths of the peak channels (NaN without spikes) %s' % (cd and cd['vals'], exp_cd)
+        return 'SPEC: clusters.depths %s are not the depths of the peak channels (NaN exactly for ids without spikes) %s' % (cd and cd['vals'], exp_cd)
     sd = _find(ok, 'spikes.depths', label)
-    if not sm['has_features']:
-        exp_sd = [DC.to_float(x) for x in res[I_DEP]['spike_depths']]
-        if sd is None or not _close(sd['vals'], exp_sd, 1e-6):
-            return 'SPEC: spikes.depths (no features) are not the cluster depths'
-    elif sd is None or sd['shape'] != [len(sm['spike_clusters'])]:
-        return 'SPEC: spikes.depths shape'
-    elif sm.get('depths') is not None and not _close(sd['vals'], sm['depths'], 1e-6):
-        return 'SPEC: spikes.depths differ from the feature-weighted depths of the source model (C09)'
-    elif len(res) > I_FD and 'model' in res[I_FD]:
-        exp_fd = [DC.to_float(x) for x in res[I_FD]['model']]
-        if not _close(sd['vals'], exp_fd, 1e-6):
-            return 'SPEC: spikes.depths differ from the feature-weighted channel depths (NaN where no positive weight)'
-    return None
+    exp_sd = [DC.to_float(x) for x in res[I_DEP]['spike_depths']]
+    if sd is None or sd['shape'] != [len(sm['spike_clusters'])] or not _close(sd['vals'], exp_sd, 1e-6):
+        return 'SPEC: spikes.depths differ from %s' % (
+            'the feature-weighted channel depths (NaN where no positive weight)' if res[I_DEP]['from_features']
+            else 'the cluster depths (no feature row for every spike)')
+    return raw_finding
 
 
 def nontrivial(case):
@@ -314,7 +332,13 @@ def tally(rep, case, impl_res, ans):
             rep.count('merged_with_gapped_maps')
     else:
         rep.count('single_dataset')
-        rep.count('features:%s' % (case['spec'].get('pc_features') is not None))
+        rep.count('features:%s' % ('subset of the spikes' if case['spec'].get('pc_feature_spike_ids') is not None
+                                   else case['spec'].get('pc_features') is not None))
+        sp_ = case['spec']
+        sc_ = sp_.get('spike_clusters') or sp_['spike_templates']
+        ncl_ = len(sp_['templates']) if sc_ == sp_['spike_templates'] else max(sc_) + 1
+        if set(range(ncl_)) - set(sc_):
+            rep.count('ids_without_spikes:%s' % ('curated' if sc_ != sp_['spike_templates'] else 'nothing curated'))
     rep.count('factor:%s' % case.get('factor', 1))
     if case.get('twice'):
         rep.count('two_exports_by_one_creator')
@@ -322,9 +346,17 @@ def tally(rep, case, impl_res, ans):
     pr = (case.get('spec') or {}).get('channel_probes')
     if pr and pr != sorted(pr):
         rep.count('interleaved_probe_labels')
+    r0 = ((ans.get('ok') or {}).get('res') or [{}])[0]
+    if 'ordered' in r0 and len(set(pr or [])) > 1:
+        rep.count('rawInd of a single dataset with several probes: ' + (
+            'labels in channel-map order, judged = per-probe index, none negative' if r0['ordered'] else
+            'labels NOT in channel-map order -> negative raw index, reported as open finding (not accepted)'))
 
 
 def classify(case, impl_res, ans, why):
+    if why.startswith('SPEC: channels.rawInd') and 'not in channel-map order' in why:
+        return dict(kind='SPEC', site='make_channel_objects', probe_labels='not in channel-map order',
+                    observed='negative raw index', merged=False)
     return dict(kind=why.split(':')[0], what=why.split(':')[1].strip()[:40], merged=bool(case.get('probes')),
                 nprobes_ge3=len(case.get('probes', [])) >= 3, raised=impl_res.get('raised'), where=impl_res.get('where'))
 
@@ -346,6 +378,8 @@ def gen(tier, rng):
     for i in range(12 if q else 200):
         spec = DC.dense_spec(rng, feats=(i % 2 == 0), empty=['none', 'last', 'middle'][i % 3], curated=(i % 4 < 2))
         f1, f2 = pairs[i % len(pairs)]
+        if i % 4 == 2:
+            A.subset_features(rng, spec)
         yield dict(p=PID, spec=spec, twice=True, factor_first=f1, factor=f2, n_closest=rng.pick([2, 3, 12]), rs=i)
     for i in range(90 if q else 2000):
         if i % 3 == 0:
@@ -365,5 +399,7 @@ def gen(tier, rng):
                 spec['channel_probes'] = [rng.pick([1, 3]) for _ in range(spec['n_channels'])]
             if i % 3 == 1:     # probe coordinates stored as integers
                 spec['dtypes'] = dict(spec.get('dtypes') or {}, channel_positions=['int32', 'uint32', 'int64', 'uint16'][(i // 3) % 4])
+            if i % 8 == 2:     # features stored for a subset of the spikes (pc_feature_spike_ids.npy)
+                A.subset_features(rng, spec)
             yield dict(p=PID, spec=spec, factor=[1, 2.5][i % 2], label=['', 'probe00'][i % 7 == 0], n_closest=rng.pick([2, 3, 12]), reexport=(i % 4 == 1 and i % 7 != 0),
                        rs=i)
